@@ -649,6 +649,46 @@ func vpOneLine(s string) string {
 }
 
 // vpRunCase runs one case line (without the TAB part) and returns implLine, verdict.
+// vpPrimeOtherMirror: with mirroring on and unequal maximum datagram sizes (VERIF_PIPE_MIRROR + VERIF_PIPE_SIZES), the OTHER
+// mirrored protocol mirrors a few datagrams before the case runs: its listener is started, and 64 short datagrams take the
+// real path of a mirrored datagram — a buffer from that protocol's pool, the protocol's mirror channel, the real dispatcher and
+// mirror worker, back into a pool. A worker that returns the buffer to the wrong pool (the two protocols share the package and
+// the buffer type) hands this case's read loop a buffer of the other protocol's size (seed C16-h).
+func vpPrimeOtherMirror(name string) {
+	if os.Getenv("VERIF_PIPE_MIRROR") == "" || os.Getenv("VERIF_PIPE_SIZES") == "" {
+		return
+	}
+	other := map[string]string{"ipfix": "sflow", "sflow": "ipfix"}[name]
+	if other == "" {
+		return
+	}
+	q := vpProtos[other]
+	if q == nil || q.start() != nil {
+		return
+	}
+	raddr := &net.UDPAddr{IP: net.IPv4(127, 0, 0, 9), Port: 40000}
+	for i := 0; i < 64; i++ {
+		switch other {
+		case "sflow":
+			b := sFlowBuffer.Get().([]byte)
+			select {
+			case sFlowMCh <- SFUDPMsg{raddr, b[:28+i%8]}:
+			default:
+				sFlowBuffer.Put(b)
+			}
+		case "ipfix":
+			b := ipfixBuffer.Get().([]byte)
+			select {
+			case ipfixMCh <- IPFIXUDPMsg{raddr, b[:28+i%8]}:
+			default:
+				ipfixBuffer.Put(b)
+			}
+		}
+	}
+	vpWait(time.Now().Add(2*time.Second), func() bool { return len(sFlowMCh) == 0 && len(ipfixMCh) == 0 })
+	time.Sleep(5 * time.Millisecond)
+}
+
 func vpRunCase(line string, caseNo int) (string, string) {
 	f := strings.Fields(line)
 	if len(f) != 5 || f[0] != "pipeline" {
@@ -673,6 +713,7 @@ func vpRunCase(line string, caseNo int) (string, string) {
 	if err := p.start(); err != nil {
 		return "bad-case", "fail:start " + vpOneLine(err.Error())
 	}
+	vpPrimeOtherMirror(p.name)
 	sentinel := vpToken{class: 'x', src: [4]byte{127, 0, 0, 1}, body: []byte{0}}
 	for _, t := range append(append([]vpToken{sentinel}, setup...), data...) {
 		if _, err := p.conn(t.src); err != nil {
